@@ -220,8 +220,8 @@ def _decide(decide, ob, case, P, path, model_to_inputs, quick_only=False):
     if res.status != "proved":
         rec["goal"] = ob.goal.sexpr()[:400]
     else:
-        rec["sample"] = ob.goal.sexpr()[:300] if res.route not in ("syntactic", "simplify") else ""
-    rec["nontrivial"] = res.route not in ("syntactic", "simplify")
+        rec["sample"] = ob.goal.sexpr()[:300] if res.route != "syntactic" else ""
+    rec["nontrivial"] = res.route != "syntactic"
     rec["key"] = "%s|%d" % (ob.name, ob.goal.hash())
     return rec
 
@@ -494,7 +494,7 @@ def finish(mod, modname, prop, args, seed, cases, results, t0, extra=()):
             "discharged": n_proved,
             "evaluations": n_ob,
             "distinct_nontrivial": len(nontrivial_keys),
-            "rule": "one evaluation = one solver obligation (assumptions /\\ path condition => goal) generated by symbolically executing the real functions; non-trivial = needed a solver route (not closed by syntactic identity or the simplifier); distinct by obligation name + goal term",
+            "rule": "one evaluation = one solver obligation (assumptions /\\ path condition => goal) generated by symbolically executing the real functions; non-trivial = not closed by syntactic identity of the two terms (i.e. z3's simplifier, a z3 solver run or a certificate was needed); distinct by obligation name + structural hash of the goal term",
             "samples": samples or [{"note": "no solver-discharged obligation in this run"}],
             "cases": len(cases),
             "paths": paths,
